@@ -30,7 +30,8 @@ type CheckConfig struct {
 	ShufflePermutations bool             `json:"shuffle_permutations"`
 	BudgetS             int              `json:"budget_s"`
 	MustReach           []string         `json:"must_reach"`
-	Params              map[string]int64 `json:"params"` // harness parameters (read via verifParam)
+	Params              map[string]int64 `json:"params"`          // harness parameters (read via verifParam)
+	AllocEnumerate      int              `json:"alloc_enumerate"` // symbolic allocation sizes up to this are enumerated
 	Note                string           `json:"note"`
 
 	queryLog io.Writer
@@ -54,6 +55,9 @@ func (c *CheckConfig) defaults() {
 	}
 	if c.Solver == "" {
 		c.Solver = "z3-new"
+	}
+	if c.AllocEnumerate == 0 {
+		c.AllocEnumerate = 64
 	}
 	if c.SampleCount == 0 {
 		c.SampleCount = 8
